@@ -61,6 +61,41 @@ def events(src, n):
         yield {"op": "cyk_matrix", "cfg": AC, "w": ab.word(w), "cells": cells, "exc": exc, "src": dict(src, n=n)}
 
 
+def unit_order_events(src, n, rng, orders=4, only=None):
+    """cfg_accepts_word converts the grammar on the fly; the unit-rule phase visits the variables in set order.
+    The membership question is asked under FORCED visiting orders (hook _verif.ordered)"""
+    import itertools
+    from gambatools.cfg_algorithms import cfg_accepts_word
+    from gambatools import _verif
+    from ..schedule_replay import OrderChooser
+    if not _verif.ON:
+        return
+    G = cfgsrc.build(src)
+    A = ab.cfg(G)
+    sigma = sorted(G.Sigma)
+    names = sorted(str(v) for v in G.V)
+    perms = [tuple(only)] if only is not None else list(itertools.permutations(names))
+    if only is None:
+        rng.shuffle(perms)
+
+    class Ch(OrderChooser):
+        def __call__(self, site, xs):            # the conversion adds a start variable: it is visited first
+            if site != self.site:
+                return None
+            by = {str(x): x for x in xs}
+            rest = [k for k in sorted(by) if k not in self.schedule]
+            return [by[k] for k in rest] + [by[k] for k in self.schedule if k in by]
+    for perm in perms[:orders]:
+        _verif.CHOOSER = Ch("unit.var", list(perm))
+        try:
+            acc, exc = guarded(lambda: [w for w in U.words_upto(sigma, n) if cfg_accepts_word(G, w)], 60)
+        finally:
+            _verif.CHOOSER = None
+        _verif.take()
+        yield {"op": "cfg_accepts", "cfg": A, "n": n, "accepted": ab.words(acc or []), "exc": exc,
+               "src": dict(src, n=n, unit_order=list(perm)), "post_equal": ab.cfg(G) == A}
+
+
 def history_events(src, n):
     """history: compute a table for a CNF grammar, append a rule to the SAME object, ask again; and derive a
     grammar from it (new start variable) and ask that one"""
@@ -113,6 +148,15 @@ def drive(task):
         if task["part"] == 0:
             for rules in cfgsrc.SPECIAL:
                 yield from events({"kind": "cfg_rules", "rules": [list(r) for r in rules]}, task["n"] + 1)
+        if task["part"] in (1, 2):
+            # unit-rule cycles with exits, roles played by different letters, forced visiting orders
+            rng = random.Random(task["part"])
+            for src in cfgsrc.unit_cycle_srcs(rng, 18 if task["stride"] > 1 else 72):
+                yield from events(src, task["n"])
+                yield from unit_order_events(src, task["n"], rng)
+        if task["part"] == 3:
+            for rules in cfgsrc.LONG_RHS:
+                yield from events({"kind": "cfg_rules", "rules": [list(r) for r in rules]}, task["n"] + 1)
     else:
         rng = random.Random(task["seed"])
         for i in range(task["count"]):
@@ -134,6 +178,10 @@ def redrive(src):
     n = src.pop("n", 3)
     if src.pop("mut", None):
         yield from history_events(src, n)
+        return
+    order = src.pop("unit_order", None)
+    if order is not None:
+        yield from unit_order_events(src, n, None, only=order)
         return
     yield from events(src, n)
 
